@@ -1,10 +1,23 @@
 package interp
 
-// Model of package reflect over go/types and the interpreter's heap.
+// Executable model of package reflect over go/types and the interpreter's heap.
+//
+// reflect.Type  = iface{rtypeType, rtype{t}}            (t is a go/types type; identity = types.Identical)
+// reflect.Value = structure{rtype{t} | nil, payload, flags}
+//   flagAddr: payload is a *value cell that holds the value (the Value is addressable and aliases it)
+//   flagRO:   obtained through an unexported field (cannot be Set or Interface()d)
+// Values that are not addressable carry the value itself as payload.
 
 import (
+	"fmt"
+	"go/ast"
 	"go/token"
 	"go/types"
+	"reflect"
+	"strings"
+	"unsafe"
+
+	"golang.org/x/tools/go/ssa"
 )
 
 type opaqueType struct {
@@ -19,7 +32,7 @@ var reflectTypesPackage = types.NewPackage("reflect", "reflect")
 // rtype is the concrete type the interpreter uses to implement reflect.Type.
 var rtypeType = makeNamedType("rtype", &opaqueType{nil, "rtype"})
 
-// errorType: engine-created errors (string payload).
+// errorType: engine-created errors.
 var errorType = makeNamedType("error", &opaqueType{nil, "error"})
 
 func makeNamedType(name string, underlying types.Type) *types.Named {
@@ -28,16 +41,463 @@ func makeNamedType(name string, underlying types.Type) *types.Named {
 }
 
 func makeReflectType(rt rtype) value {
+	if rt.t == nil {
+		return iface{}
+	}
 	return iface{rtypeType, rt}
 }
 
-// nativeMethod dispatches interface method calls on engine-implemented dynamic types.
+const (
+	flagAddr uintptr = 1
+	flagRO   uintptr = 2
+)
+
+type rv struct {
+	t     types.Type
+	p     value
+	flags uintptr
+}
+
+func (r rv) valid() bool { return r.t != nil }
+
+func (r rv) enc() value {
+	if r.t == nil {
+		return structure{(*value)(nil), unsafe.Pointer(nil), uintptr(0)}
+	}
+	return structure{rtype{r.t}, r.p, r.flags}
+}
+
+func decodeRV(v value) rv {
+	st := v.(structure)
+	rt, ok := st[0].(rtype)
+	if !ok {
+		return rv{}
+	}
+	fl, _ := st[2].(uintptr)
+	return rv{t: rt.t, p: st[1], flags: fl}
+}
+
+// get returns the current value (not copied).
+func (r rv) get() value {
+	if r.flags&flagAddr != 0 {
+		return *(r.p.(*value))
+	}
+	return r.p
+}
+
+// copyOut returns an independent copy of the current value.
+func (r rv) copyOut() value {
+	if r.flags&flagAddr != 0 {
+		return load(r.t, r.p.(*value))
+	}
+	return copyVal(r.t, r.p)
+}
+
+func copyVal(t types.Type, v value) value {
+	var cell value = v
+	return load(t, &cell)
+}
+
+func reflectPanic(format string, args ...interface{}) {
+	panic(targetPanic{iface{t: nil, v: "reflect: " + fmt.Sprintf(format, args...)}})
+}
+
+func reflectKind(t types.Type) reflect.Kind {
+	switch t := t.(type) {
+	case *types.Named, *types.Alias:
+		return reflectKind(t.Underlying())
+	case *types.Basic:
+		switch t.Kind() {
+		case types.Bool:
+			return reflect.Bool
+		case types.Int:
+			return reflect.Int
+		case types.Int8:
+			return reflect.Int8
+		case types.Int16:
+			return reflect.Int16
+		case types.Int32:
+			return reflect.Int32
+		case types.Int64:
+			return reflect.Int64
+		case types.Uint:
+			return reflect.Uint
+		case types.Uint8:
+			return reflect.Uint8
+		case types.Uint16:
+			return reflect.Uint16
+		case types.Uint32:
+			return reflect.Uint32
+		case types.Uint64:
+			return reflect.Uint64
+		case types.Uintptr:
+			return reflect.Uintptr
+		case types.Float32:
+			return reflect.Float32
+		case types.Float64:
+			return reflect.Float64
+		case types.Complex64:
+			return reflect.Complex64
+		case types.Complex128:
+			return reflect.Complex128
+		case types.String:
+			return reflect.String
+		case types.UnsafePointer:
+			return reflect.UnsafePointer
+		}
+	case *types.Array:
+		return reflect.Array
+	case *types.Chan:
+		return reflect.Chan
+	case *types.Signature:
+		return reflect.Func
+	case *types.Interface:
+		return reflect.Interface
+	case *types.Map:
+		return reflect.Map
+	case *types.Pointer:
+		return reflect.Ptr
+	case *types.Slice:
+		return reflect.Slice
+	case *types.Struct:
+		return reflect.Struct
+	case *types.TypeParam:
+		return reflectKind(t.Underlying())
+	}
+	if t == rtypeType {
+		return reflect.Ptr
+	}
+	panic(fmt.Sprint("unexpected type: ", t))
+}
+
+func kindVal(t types.Type) value { return uint(reflectKind(t)) }
+
+func typeArg(v value) types.Type {
+	it := v.(iface)
+	if it.t == nil {
+		reflectPanic("nil Type")
+	}
+	return it.v.(rtype).t
+}
+
+func isReflectValueType(t types.Type) bool {
+	if n, ok := t.(*types.Named); ok {
+		o := n.Obj()
+		return o.Pkg() != nil && o.Pkg().Path() == "reflect" && o.Name() == "Value"
+	}
+	return false
+}
+
+func compareRV(x, y value) value {
+	a, b := decodeRV(x), decodeRV(y)
+	if !a.valid() || !b.valid() {
+		return a.valid() == b.valid()
+	}
+	if !types.Identical(a.t, b.t) || a.flags != b.flags {
+		return false
+	}
+	pa, oka := a.p.(*value)
+	pb, okb := b.p.(*value)
+	if oka && okb {
+		return pa == pb
+	}
+	return false
+}
+
+// ---------------------------------------------------------------------------------------------
+// pointer identities (reflect.Value.Pointer)
+
+var ptrIDs = map[interface{}]uintptr{}
+var nextPtrID uintptr = 0xc000100000
+
+func ptrID(k interface{}) uintptr {
+	if id, ok := ptrIDs[k]; ok {
+		return id
+	}
+	nextPtrID += 0x100
+	ptrIDs[k] = nextPtrID
+	return nextPtrID
+}
+
+func resetPtrIDs() {
+	ptrIDs = map[interface{}]uintptr{}
+	nextPtrID = 0xc000100000
+}
+
+// ---------------------------------------------------------------------------------------------
+// StructField helpers
+
+func exported(name string) bool { return ast.IsExported(name) }
+
+// structFieldValue builds a reflect.StructField structure:
+// {Name, PkgPath, Type, Tag, Offset, Index, Anonymous}
+func structFieldValue(st *types.Struct, i int, index []int) value {
+	f := st.Field(i)
+	pkgPath := ""
+	if !f.Exported() && f.Pkg() != nil {
+		pkgPath = f.Pkg().Path()
+	}
+	var idx []value
+	for _, k := range index {
+		idx = append(idx, k)
+	}
+	var off uintptr
+	func() {
+		defer func() { recover() }()
+		var vars []*types.Var
+		for k := 0; k < st.NumFields(); k++ {
+			vars = append(vars, st.Field(k))
+		}
+		off = uintptr(theInterp.sizes.Offsetsof(vars)[i])
+	}()
+	return structure{f.Name(), pkgPath, makeReflectType(rtype{f.Type()}), st.Tag(i), off, idx, f.Embedded()}
+}
+
+func structOf(fieldsV value) types.Type {
+	fs := fieldsV.([]value)
+	var vars []*types.Var
+	var tags []string
+	seen := map[string]bool{}
+	for i, fv := range fs {
+		f := fv.(structure)
+		name := f[0].(string)
+		pkgPath, _ := f[1].(string)
+		tIface := f[2].(iface)
+		if name == "" {
+			reflectPanic("reflect.StructOf: field %d has no name", i)
+		}
+		if !token.IsIdentifier(name) {
+			reflectPanic("reflect.StructOf: field %d has invalid name", i)
+		}
+		if tIface.t == nil {
+			reflectPanic("reflect.StructOf: field %d has no type", i)
+		}
+		ft := tIface.v.(rtype).t
+		if !exported(name) && pkgPath == "" {
+			reflectPanic("reflect.StructOf: field %q is unexported but missing PkgPath", name)
+		}
+		if seen[name] && name != "_" {
+			reflectPanic("reflect.StructOf: duplicate field %s", name)
+		}
+		seen[name] = true
+		tag, _ := f[3].(string)
+		anon, _ := f[6].(bool)
+		var pkg *types.Package
+		if !exported(name) {
+			pkg = pkgByPath(pkgPath)
+		}
+		vars = append(vars, types.NewField(token.NoPos, pkg, name, ft, anon))
+		tags = append(tags, tag)
+	}
+	return types.NewStruct(vars, tags)
+}
+
+func pkgByPath(path string) *types.Package {
+	for _, p := range theInterp.prog.AllPackages() {
+		if p.Pkg.Path() == path {
+			return p.Pkg
+		}
+	}
+	return types.NewPackage(path, path)
+}
+
+// ---------------------------------------------------------------------------------------------
+// reflect.Type methods
+
+func rtypeMethod(name string) *nativeFn {
+	f := rtypeMethods[name]
+	if f == nil {
+		return &nativeFn{name: "reflect.Type." + name, fn: func(fr *frame, args []value) value {
+			panic(abortPath{"reflect model: Type." + name + " not implemented"})
+		}}
+	}
+	return &nativeFn{name: "reflect.Type." + name, fn: f}
+}
+
+var rtypeMethods map[string]func(fr *frame, args []value) value
+
+func underStruct(t types.Type, meth string) *types.Struct {
+	st, ok := t.Underlying().(*types.Struct)
+	if !ok {
+		reflectPanic("%s of non-struct type %s", meth, t)
+	}
+	return st
+}
+
+func typeString(t types.Type) string {
+	return types.TypeString(t, func(p *types.Package) string { return p.Name() })
+}
+
+func methodSetOf(t types.Type) *types.MethodSet {
+	return theInterp.prog.MethodSets.MethodSet(t)
+}
+
+func init() {
+	rtypeMethods = map[string]func(fr *frame, args []value) value{
+		"Kind":   func(fr *frame, args []value) value { return kindVal(args[0].(rtype).t) },
+		"String": func(fr *frame, args []value) value { return typeString(args[0].(rtype).t) },
+		"Name": func(fr *frame, args []value) value {
+			switch t := args[0].(rtype).t.(type) {
+			case *types.Named:
+				return t.Obj().Name()
+			case *types.Basic:
+				return t.Name()
+			case *types.Alias:
+				return t.Obj().Name()
+			}
+			return ""
+		},
+		"PkgPath": func(fr *frame, args []value) value {
+			if t, ok := args[0].(rtype).t.(*types.Named); ok && t.Obj().Pkg() != nil {
+				return t.Obj().Pkg().Path()
+			}
+			return ""
+		},
+		"Elem": func(fr *frame, args []value) value {
+			switch t := args[0].(rtype).t.Underlying().(type) {
+			case *types.Pointer:
+				return makeReflectType(rtype{t.Elem()})
+			case *types.Slice:
+				return makeReflectType(rtype{t.Elem()})
+			case *types.Array:
+				return makeReflectType(rtype{t.Elem()})
+			case *types.Map:
+				return makeReflectType(rtype{t.Elem()})
+			case *types.Chan:
+				return makeReflectType(rtype{t.Elem()})
+			}
+			reflectPanic("Elem of invalid type %s", typeString(args[0].(rtype).t))
+			return nil
+		},
+		"Key": func(fr *frame, args []value) value {
+			if t, ok := args[0].(rtype).t.Underlying().(*types.Map); ok {
+				return makeReflectType(rtype{t.Key()})
+			}
+			reflectPanic("Key of non-map type %s", typeString(args[0].(rtype).t))
+			return nil
+		},
+		"Len": func(fr *frame, args []value) value {
+			if t, ok := args[0].(rtype).t.Underlying().(*types.Array); ok {
+				return int(t.Len())
+			}
+			reflectPanic("Len of non-array type %s", typeString(args[0].(rtype).t))
+			return nil
+		},
+		"NumField": func(fr *frame, args []value) value {
+			return underStruct(args[0].(rtype).t, "NumField").NumFields()
+		},
+		"Field": func(fr *frame, args []value) value {
+			st := underStruct(args[0].(rtype).t, "Field")
+			i := int(asInt64(args[1]))
+			if i < 0 || i >= st.NumFields() {
+				reflectPanic("Field index out of bounds")
+			}
+			return structFieldValue(st, i, []int{i})
+		},
+		"FieldByName": func(fr *frame, args []value) value {
+			st := underStruct(args[0].(rtype).t, "FieldByName")
+			name := args[1].(string)
+			for i := 0; i < st.NumFields(); i++ {
+				if st.Field(i).Name() == name {
+					return tuple{structFieldValue(st, i, []int{i}), true}
+				}
+			}
+			// promoted fields through embedded structs (one level of search, breadth first)
+			obj, index, _ := types.LookupFieldOrMethod(args[0].(rtype).t, true, nil, name)
+			if v, ok := obj.(*types.Var); ok && v.IsField() && len(index) > 1 {
+				cur := args[0].(rtype).t
+				var stv *types.Struct
+				for k, ix := range index {
+					if p, ok := cur.Underlying().(*types.Pointer); ok {
+						cur = p.Elem()
+					}
+					stv = cur.Underlying().(*types.Struct)
+					if k < len(index)-1 {
+						cur = stv.Field(ix).Type()
+					}
+				}
+				return tuple{structFieldValue(stv, index[len(index)-1], index), true}
+			}
+			return tuple{zero(fr.fn.Signature.Results().At(0).Type()), false}
+		},
+		"Implements": func(fr *frame, args []value) value {
+			u := typeArg(args[1])
+			it, ok := u.Underlying().(*types.Interface)
+			if !ok {
+				reflectPanic("non-interface type passed to Type.Implements")
+			}
+			return types.Implements(args[0].(rtype).t, it)
+		},
+		"AssignableTo":  func(fr *frame, args []value) value { return types.AssignableTo(args[0].(rtype).t, typeArg(args[1])) },
+		"ConvertibleTo": func(fr *frame, args []value) value { return convertibleTo(args[0].(rtype).t, typeArg(args[1])) },
+		"Comparable":    func(fr *frame, args []value) value { return types.Comparable(args[0].(rtype).t) },
+		"Bits": func(fr *frame, args []value) value {
+			t := args[0].(rtype).t
+			b, ok := t.Underlying().(*types.Basic)
+			if !ok || b.Info()&types.IsNumeric == 0 {
+				reflectPanic("Bits of non-arithmetic Type %s", typeString(t))
+			}
+			return int(theInterp.sizes.Sizeof(t)) * 8
+		},
+		"Size":  func(fr *frame, args []value) value { return uintptr(theInterp.sizes.Sizeof(args[0].(rtype).t)) },
+		"Align": func(fr *frame, args []value) value { return int(theInterp.sizes.Alignof(args[0].(rtype).t)) },
+		"NumMethod": func(fr *frame, args []value) value {
+			t := args[0].(rtype).t
+			if it, ok := t.Underlying().(*types.Interface); ok {
+				return it.NumMethods()
+			}
+			ms := methodSetOf(t)
+			n := 0
+			for i := 0; i < ms.Len(); i++ {
+				if ms.At(i).Obj().Exported() {
+					n++
+				}
+			}
+			return n
+		},
+		"NumIn":      func(fr *frame, args []value) value { return args[0].(rtype).t.Underlying().(*types.Signature).Params().Len() },
+		"NumOut":     func(fr *frame, args []value) value { return args[0].(rtype).t.Underlying().(*types.Signature).Results().Len() },
+		"IsVariadic": func(fr *frame, args []value) value { return args[0].(rtype).t.Underlying().(*types.Signature).Variadic() },
+		"In": func(fr *frame, args []value) value {
+			return makeReflectType(rtype{args[0].(rtype).t.Underlying().(*types.Signature).Params().At(int(asInt64(args[1]))).Type()})
+		},
+		"Out": func(fr *frame, args []value) value {
+			return makeReflectType(rtype{args[0].(rtype).t.Underlying().(*types.Signature).Results().At(int(asInt64(args[1]))).Type()})
+		},
+		"ChanDir": func(fr *frame, args []value) value {
+			c := args[0].(rtype).t.Underlying().(*types.Chan)
+			switch c.Dir() {
+			case types.SendOnly:
+				return int(reflect.SendDir)
+			case types.RecvOnly:
+				return int(reflect.RecvDir)
+			}
+			return int(reflect.BothDir)
+		},
+	}
+}
+
+func convertibleTo(src, dst types.Type) bool {
+	if types.ConvertibleTo(src, dst) {
+		// go/types allows string(int) etc. exactly like reflect; slices to arrays need length
+		// checks at run time (not used by dials)
+		return true
+	}
+	return false
+}
+
+// ---------------------------------------------------------------------------------------------
+// package-level functions and Value methods
+
 func nativeMethod(recv iface, m *types.Func) (*nativeFn, bool) {
-	switch recv.t {
-	case rtypeType:
-		if f := rtypeMethod(m.Name()); f != nil {
+	if _, ok := recv.v.(*ctxObj); ok {
+		if f := contextMethod(m.Name()); f != nil {
 			return f, true
 		}
+	}
+	switch recv.t {
+	case rtypeType:
+		return rtypeMethod(m.Name()), true
 	case errorType:
 		if m.Name() == "Error" {
 			return &nativeFn{name: "error.Error", fn: func(fr *frame, args []value) value { return args[0].(engineErr).msg }}, true
@@ -71,6 +531,15 @@ func nativeEquals(x, y value) (value, bool) {
 		return false, true
 	case *nativeFn:
 		return false, true
+	case *smap:
+		ym, ok := y.(*smap)
+		return ok && x == ym, true
+	case *mapIterState:
+		return x == y, true
+	case *ctxObj:
+		return x == y, true
+	case *syncObj:
+		return x == y, true
 	}
 	return nil, false
 }
@@ -82,6 +551,968 @@ func errorMessage(it iface) (string, bool) {
 	return "", false
 }
 
-func rtypeMethod(name string) *nativeFn { return nil }
+type mapIterState struct {
+	m    *smap
+	kt   types.Type
+	vt   types.Type
+	it   *smapIter
+	k, v value
+	ok   bool
+	ro   uintptr
+}
+
+func rvArg(v value) rv {
+	r := decodeRV(v)
+	return r
+}
+
+func mustValid(r rv, meth string) {
+	if !r.valid() {
+		panic(targetPanic{iface{t: nil, v: "reflect: call of reflect.Value." + meth + " on zero Value"}})
+	}
+}
+
+func mustKind(r rv, meth string, kinds ...reflect.Kind) reflect.Kind {
+	mustValid(r, meth)
+	k := reflectKind(r.t)
+	for _, kk := range kinds {
+		if k == kk {
+			return k
+		}
+	}
+	panic(targetPanic{iface{t: nil, v: "reflect: call of reflect.Value." + meth + " on " + k.String() + " Value"}})
+}
+
+func sliceID(s []value) uintptr {
+	if cap(s) == 0 {
+		if s == nil {
+			return 0
+		}
+		return 0xc000000010
+	}
+	full := s[:cap(s)]
+	// identity of the element the slice starts at: last-cell identity minus distance
+	return ptrID(&full[cap(s)-1]) - uintptr(cap(s)-1)*8
+}
+
+func valuePointer(r rv, meth string) uintptr {
+	k := mustKind(r, meth, reflect.Ptr, reflect.Map, reflect.Slice, reflect.Chan, reflect.Func, reflect.UnsafePointer)
+	v := r.get()
+	switch k {
+	case reflect.Ptr:
+		p, _ := v.(*value)
+		if p == nil {
+			return 0
+		}
+		return ptrID(p)
+	case reflect.Map:
+		m, _ := v.(*smap)
+		if m == nil {
+			return 0
+		}
+		return ptrID(m)
+	case reflect.Slice:
+		s, _ := v.([]value)
+		return sliceID(s)
+	case reflect.Chan:
+		c, _ := v.(*mchan)
+		if c == nil {
+			return 0
+		}
+		return ptrID(c)
+	case reflect.Func:
+		switch f := v.(type) {
+		case *ssa.Function:
+			if f == nil {
+				return 0
+			}
+			return ptrID(f)
+		case *closure:
+			return ptrID(f)
+		}
+		return 0
+	}
+	return 0
+}
+
+func isNilValue(r rv) bool {
+	k := mustKind(r, "IsNil", reflect.Ptr, reflect.Map, reflect.Slice, reflect.Chan, reflect.Func, reflect.Interface, reflect.UnsafePointer)
+	v := r.get()
+	switch k {
+	case reflect.Ptr:
+		p, _ := v.(*value)
+		return p == nil
+	case reflect.Map:
+		m, _ := v.(*smap)
+		return m == nil
+	case reflect.Slice:
+		s, _ := v.([]value)
+		return s == nil
+	case reflect.Chan:
+		c, _ := v.(*mchan)
+		return c == nil
+	case reflect.Func:
+		switch f := v.(type) {
+		case *ssa.Function:
+			return f == nil
+		case *closure:
+			return f == nil
+		case *nativeFn:
+			return f == nil
+		}
+		return v == nil
+	case reflect.Interface:
+		it, _ := v.(iface)
+		return it.t == nil
+	}
+	return v == nil
+}
+
+// isZeroV returns whether v of type t is the zero value (bool or symbolic bool).
+func isZeroV(t types.Type, v value) value {
+	switch tt := t.Underlying().(type) {
+	case *types.Basic:
+		if isStr(v) {
+			return strLen(v) == 0
+		}
+		return equalsV(t, v, zero(t))
+	case *types.Pointer:
+		p, _ := v.(*value)
+		return p == nil
+	case *types.Slice:
+		s, _ := v.([]value)
+		return s == nil
+	case *types.Map:
+		m, _ := v.(*smap)
+		return m == nil
+	case *types.Chan:
+		c, _ := v.(*mchan)
+		return c == nil
+	case *types.Signature:
+		switch f := v.(type) {
+		case *ssa.Function:
+			return f == nil
+		}
+		return false
+	case *types.Interface:
+		return v.(iface).t == nil
+	case *types.Struct:
+		st := v.(structure)
+		var acc value = true
+		for i := 0; i < tt.NumFields(); i++ {
+			acc = vand(acc, isZeroV(tt.Field(i).Type(), st[i]))
+		}
+		return acc
+	case *types.Array:
+		a := v.(array)
+		var acc value = true
+		for i := range a {
+			acc = vand(acc, isZeroV(tt.Elem(), a[i]))
+		}
+		return acc
+	}
+	return false
+}
+
+func setValue(dst rv, src rv, meth string) {
+	mustValid(dst, meth)
+	if dst.flags&flagAddr == 0 {
+		panic(targetPanic{iface{t: nil, v: "reflect: reflect.Value." + meth + " using unaddressable value"}})
+	}
+	if dst.flags&flagRO != 0 {
+		panic(targetPanic{iface{t: nil, v: "reflect: reflect.Value." + meth + " using value obtained using unexported field"}})
+	}
+	if !src.valid() {
+		panic(targetPanic{iface{t: nil, v: "reflect: call of reflect.Value.Set on zero Value"}})
+	}
+	if src.flags&flagRO != 0 {
+		panic(targetPanic{iface{t: nil, v: "reflect: reflect.Value.Set using value obtained using unexported field"}})
+	}
+	nv := assignConv(src, dst.t, "reflect.Set")
+	store(dst.t, dst.p.(*value), nv)
+}
+
+// assignConv returns src's value as a value of type dst (boxing into interfaces).
+func assignConv(src rv, dst types.Type, ctx string) value {
+	if !types.AssignableTo(src.t, dst) {
+		panic(targetPanic{iface{t: nil, v: ctx + ": value of type " + typeString(src.t) + " is not assignable to type " + typeString(dst)}})
+	}
+	v := src.copyOut()
+	if _, ok := dst.Underlying().(*types.Interface); ok {
+		if _, srcIsIface := src.t.Underlying().(*types.Interface); srcIsIface {
+			return v
+		}
+		return iface{t: src.t, v: v}
+	}
+	return v
+}
+
+func convertValue(src rv, dst types.Type) rv {
+	if !convertibleTo(src.t, dst) {
+		panic(targetPanic{iface{t: nil, v: "reflect.Value.Convert: value of type " + typeString(src.t) + " cannot be converted to type " + typeString(dst)}})
+	}
+	v := src.copyOut()
+	ro := src.flags & flagRO
+	if _, ok := dst.Underlying().(*types.Interface); ok {
+		if _, srcIsIface := src.t.Underlying().(*types.Interface); srcIsIface {
+			return rv{t: dst, p: v, flags: ro}
+		}
+		return rv{t: dst, p: iface{t: src.t, v: v}, flags: ro}
+	}
+	_, sb := src.t.Underlying().(*types.Basic)
+	_, db := dst.Underlying().(*types.Basic)
+	if sb && db {
+		return rv{t: dst, p: conv(dst, src.t, v), flags: ro}
+	}
+	if sb != db {
+		// string <-> []byte / []rune
+		return rv{t: dst, p: conv(dst, src.t, v), flags: ro}
+	}
+	return rv{t: dst, p: v, flags: ro}
+}
+
+func overflowInt(t types.Type, x value) value {
+	bits := uint(theInterp.sizes.Sizeof(t)) * 8
+	// trunc := (x << (64 - bitSize)) >> (64 - bitSize); return x != trunc
+	sh := uint64(64 - bits)
+	shl := binop(token.SHL, types.Typ[types.Int64], x, sh)
+	shr := binop(token.SHR, types.Typ[types.Int64], shl, sh)
+	return binop(token.NEQ, types.Typ[types.Int64], x, shr)
+}
+
+func overflowUint(t types.Type, x value) value {
+	bits := uint(theInterp.sizes.Sizeof(t)) * 8
+	sh := uint64(64 - bits)
+	shl := binop(token.SHL, types.Typ[types.Uint64], x, sh)
+	shr := binop(token.SHR, types.Typ[types.Uint64], shl, sh)
+	return binop(token.NEQ, types.Typ[types.Uint64], x, shr)
+}
 
 func initReflectModel(i *interpreter) {}
+
+func init() {
+	ext := map[string]externalFn{
+		"reflect.TypeOf": func(fr *frame, args []value) value {
+			return makeReflectType(rtype{args[0].(iface).t})
+		},
+		"reflect.ValueOf": func(fr *frame, args []value) value {
+			it := args[0].(iface)
+			if it.t == nil {
+				return rv{}.enc()
+			}
+			return rv{t: it.t, p: it.v}.enc()
+		},
+		"reflect.Zero": func(fr *frame, args []value) value {
+			t := typeArg(args[0])
+			return rv{t: t, p: zero(t)}.enc()
+		},
+		"reflect.New": func(fr *frame, args []value) value {
+			t := typeArg(args[0])
+			cell := zero(t)
+			return rv{t: types.NewPointer(t), p: &cell}.enc()
+		},
+		"reflect.Indirect": func(fr *frame, args []value) value {
+			r := rvArg(args[0])
+			if r.valid() && reflectKind(r.t) == reflect.Ptr {
+				return externals["(reflect.Value).Elem"](fr, args)
+			}
+			return args[0]
+		},
+		"reflect.PtrTo":     func(fr *frame, args []value) value { return makeReflectType(rtype{types.NewPointer(typeArg(args[0]))}) },
+		"reflect.PointerTo": func(fr *frame, args []value) value { return makeReflectType(rtype{types.NewPointer(typeArg(args[0]))}) },
+		"reflect.SliceOf":   func(fr *frame, args []value) value { return makeReflectType(rtype{types.NewSlice(typeArg(args[0]))}) },
+		"reflect.MapOf": func(fr *frame, args []value) value {
+			k := typeArg(args[0])
+			if !types.Comparable(k) {
+				reflectPanic("reflect.MapOf: invalid key type %s", typeString(k))
+			}
+			return makeReflectType(rtype{types.NewMap(k, typeArg(args[1]))})
+		},
+		"reflect.ArrayOf": func(fr *frame, args []value) value {
+			n := asInt64(args[0])
+			if n < 0 {
+				reflectPanic("reflect: negative length passed to ArrayOf")
+			}
+			return makeReflectType(rtype{types.NewArray(typeArg(args[1]), n)})
+		},
+		"reflect.ChanOf": func(fr *frame, args []value) value {
+			dir := types.SendRecv
+			switch reflect.ChanDir(asInt64(args[0])) {
+			case reflect.SendDir:
+				dir = types.SendOnly
+			case reflect.RecvDir:
+				dir = types.RecvOnly
+			}
+			return makeReflectType(rtype{types.NewChan(dir, typeArg(args[1]))})
+		},
+		"reflect.StructOf": func(fr *frame, args []value) value { return makeReflectType(rtype{structOf(args[0])}) },
+		"reflect.MakeSlice": func(fr *frame, args []value) value {
+			t := typeArg(args[0])
+			st, ok := t.Underlying().(*types.Slice)
+			if !ok {
+				reflectPanic("reflect.MakeSlice of non-slice type")
+			}
+			n, c := asInt64(args[1]), asInt64(args[2])
+			if n < 0 {
+				reflectPanic("reflect.MakeSlice: negative len")
+			}
+			if c < 0 {
+				reflectPanic("reflect.MakeSlice: negative cap")
+			}
+			if n > c {
+				reflectPanic("reflect.MakeSlice: len > cap")
+			}
+			if c > 1<<20 {
+				unsupported("reflect.MakeSlice with capacity %d", c)
+			}
+			s := make([]value, c)
+			for k := range s {
+				s[k] = zero(st.Elem())
+			}
+			return rv{t: t, p: s[:n]}.enc()
+		},
+		"reflect.MakeMap": func(fr *frame, args []value) value {
+			t := typeArg(args[0])
+			mt, ok := t.Underlying().(*types.Map)
+			if !ok {
+				reflectPanic("reflect.MakeMap of non-map type")
+			}
+			m := makeMap(mt.Key(), 0).(*smap)
+			m.epoch = theInterp.epoch
+			return rv{t: t, p: m}.enc()
+		},
+		"reflect.MakeMapWithSize": func(fr *frame, args []value) value {
+			return externals["reflect.MakeMap"](fr, args[:1])
+		},
+		"reflect.MakeChan": func(fr *frame, args []value) value {
+			t := typeArg(args[0])
+			ct := t.Underlying().(*types.Chan)
+			var c *mchan
+			if cur != nil && cur.sched != nil {
+				c = cur.sched.newChan(int(asInt64(args[1])), ct.Elem())
+			} else {
+				c = &mchan{id: -1, cap: int(asInt64(args[1])), elem: ct.Elem()}
+			}
+			return rv{t: t, p: c}.enc()
+		},
+		"reflect.Append": func(fr *frame, args []value) value {
+			s := rvArg(args[0])
+			mustKind(s, "Append", reflect.Slice)
+			et := s.t.Underlying().(*types.Slice).Elem()
+			cur0, _ := s.get().([]value)
+			var add []value
+			for _, xv := range args[1].([]value) {
+				x := rvArg(xv)
+				if !x.valid() {
+					reflectPanic("reflect.Append: zero Value")
+				}
+				add = append(add, assignConv(x, et, "reflect.Append"))
+			}
+			return rv{t: s.t, p: appendLogged(cur0, add)}.enc()
+		},
+		"reflect.DeepEqual": func(fr *frame, args []value) value {
+			a, b := args[0].(iface), args[1].(iface)
+			if a.t == nil || b.t == nil {
+				return a.t == nil && b.t == nil
+			}
+			if !types.Identical(a.t, b.t) {
+				return false
+			}
+			return deepEqual(a.t, a.v, b.v, map[[2]interface{}]bool{}, 0)
+		},
+
+		"(reflect.Value).IsValid": func(fr *frame, args []value) value { return rvArg(args[0]).valid() },
+		"(reflect.Value).Kind": func(fr *frame, args []value) value {
+			r := rvArg(args[0])
+			if !r.valid() {
+				return uint(reflect.Invalid)
+			}
+			return kindVal(r.t)
+		},
+		"(reflect.Value).Type": func(fr *frame, args []value) value {
+			r := rvArg(args[0])
+			mustValid(r, "Type")
+			return makeReflectType(rtype{r.t})
+		},
+		"(reflect.Value).CanAddr": func(fr *frame, args []value) value { return rvArg(args[0]).flags&flagAddr != 0 },
+		"(reflect.Value).CanSet": func(fr *frame, args []value) value {
+			r := rvArg(args[0])
+			return r.flags&flagAddr != 0 && r.flags&flagRO == 0
+		},
+		"(reflect.Value).CanInterface": func(fr *frame, args []value) value {
+			r := rvArg(args[0])
+			mustValid(r, "CanInterface")
+			return r.flags&flagRO == 0
+		},
+		"(reflect.Value).Elem": func(fr *frame, args []value) value {
+			r := rvArg(args[0])
+			k := mustKind(r, "Elem", reflect.Ptr, reflect.Interface)
+			if k == reflect.Ptr {
+				p, _ := r.get().(*value)
+				if p == nil {
+					return rv{}.enc()
+				}
+				return rv{t: r.t.Underlying().(*types.Pointer).Elem(), p: p, flags: flagAddr | (r.flags & flagRO)}.enc()
+			}
+			it := r.get().(iface)
+			if it.t == nil {
+				return rv{}.enc()
+			}
+			return rv{t: it.t, p: it.v, flags: r.flags & flagRO}.enc()
+		},
+		"(reflect.Value).Addr": func(fr *frame, args []value) value {
+			r := rvArg(args[0])
+			if r.flags&flagAddr == 0 {
+				panic(targetPanic{iface{t: nil, v: "reflect.Value.Addr of unaddressable value"}})
+			}
+			return rv{t: types.NewPointer(r.t), p: r.p, flags: r.flags & flagRO}.enc()
+		},
+		"(reflect.Value).NumField": func(fr *frame, args []value) value {
+			r := rvArg(args[0])
+			mustKind(r, "NumField", reflect.Struct)
+			return r.t.Underlying().(*types.Struct).NumFields()
+		},
+		"(reflect.Value).Field": func(fr *frame, args []value) value {
+			r := rvArg(args[0])
+			mustKind(r, "Field", reflect.Struct)
+			return fieldOf(r, int(asInt64(args[1]))).enc()
+		},
+		"(reflect.Value).FieldByName": func(fr *frame, args []value) value {
+			r := rvArg(args[0])
+			mustKind(r, "FieldByName", reflect.Struct)
+			st := r.t.Underlying().(*types.Struct)
+			name := args[1].(string)
+			for i := 0; i < st.NumFields(); i++ {
+				if st.Field(i).Name() == name {
+					return fieldOf(r, i).enc()
+				}
+			}
+			return rv{}.enc()
+		},
+		"(reflect.Value).FieldByIndex": func(fr *frame, args []value) value {
+			r, err := fieldByIndex(rvArg(args[0]), args[1].([]value))
+			if err != "" {
+				panic(targetPanic{iface{t: nil, v: err}})
+			}
+			return r.enc()
+		},
+		"(reflect.Value).FieldByIndexErr": func(fr *frame, args []value) value {
+			r, err := fieldByIndex(rvArg(args[0]), args[1].([]value))
+			if err != "" {
+				return tuple{rv{}.enc(), newEngineErr(err, nil)}
+			}
+			return tuple{r.enc(), iface{}}
+		},
+		"(reflect.Value).Len": func(fr *frame, args []value) value {
+			r := rvArg(args[0])
+			k := mustKind(r, "Len", reflect.Slice, reflect.Array, reflect.Map, reflect.String, reflect.Chan)
+			v := r.get()
+			switch k {
+			case reflect.Slice:
+				s, _ := v.([]value)
+				return len(s)
+			case reflect.Array:
+				return len(v.(array))
+			case reflect.Map:
+				m, _ := v.(*smap)
+				return m.len()
+			case reflect.String:
+				return strLen(v)
+			}
+			c, _ := v.(*mchan)
+			if c == nil {
+				return 0
+			}
+			return len(c.buf)
+		},
+		"(reflect.Value).Cap": func(fr *frame, args []value) value {
+			r := rvArg(args[0])
+			k := mustKind(r, "Cap", reflect.Slice, reflect.Array, reflect.Chan)
+			v := r.get()
+			switch k {
+			case reflect.Slice:
+				s, _ := v.([]value)
+				return cap(s)
+			case reflect.Array:
+				return len(v.(array))
+			}
+			c, _ := v.(*mchan)
+			if c == nil {
+				return 0
+			}
+			return c.cap
+		},
+		"(reflect.Value).Index": func(fr *frame, args []value) value {
+			r := rvArg(args[0])
+			k := mustKind(r, "Index", reflect.Slice, reflect.Array, reflect.String)
+			i := int(asInt64(args[1]))
+			ro := r.flags & flagRO
+			switch k {
+			case reflect.Slice:
+				s, _ := r.get().([]value)
+				if i < 0 || i >= len(s) {
+					reflectPanic("slice index out of range")
+				}
+				return rv{t: r.t.Underlying().(*types.Slice).Elem(), p: &s[i], flags: flagAddr | ro}.enc()
+			case reflect.Array:
+				et := r.t.Underlying().(*types.Array).Elem()
+				a := r.get().(array)
+				if i < 0 || i >= len(a) {
+					reflectPanic("array index out of range")
+				}
+				if r.flags&flagAddr != 0 {
+					return rv{t: et, p: &a[i], flags: flagAddr | ro}.enc()
+				}
+				return rv{t: et, p: a[i], flags: ro}.enc()
+			}
+			b := strBytes(r.get())
+			if i < 0 || i >= len(b) {
+				reflectPanic("string index out of range")
+			}
+			return rv{t: types.Typ[types.Uint8], p: b[i], flags: ro}.enc()
+		},
+		"(reflect.Value).Slice": func(fr *frame, args []value) value {
+			r := rvArg(args[0])
+			k := mustKind(r, "Slice", reflect.Slice, reflect.Array, reflect.String)
+			i, j := int(asInt64(args[1])), int(asInt64(args[2]))
+			switch k {
+			case reflect.Slice:
+				s, _ := r.get().([]value)
+				if i < 0 || j < i || j > cap(s) {
+					reflectPanic("reflect.Value.Slice: slice index out of bounds")
+				}
+				return rv{t: r.t, p: s[i:j], flags: r.flags & flagRO}.enc()
+			case reflect.Array:
+				if r.flags&flagAddr == 0 {
+					reflectPanic("reflect.Value.Slice: slice of unaddressable array")
+				}
+				a := r.get().(array)
+				if i < 0 || j < i || j > len(a) {
+					reflectPanic("reflect.Value.Slice: slice index out of bounds")
+				}
+				return rv{t: types.NewSlice(r.t.Underlying().(*types.Array).Elem()), p: []value(a)[i:j], flags: r.flags & flagRO}.enc()
+			}
+			b := strBytes(r.get())
+			if i < 0 || j < i || j > len(b) {
+				reflectPanic("reflect.Value.Slice: string slice index out of bounds")
+			}
+			return rv{t: r.t, p: normStr(b[i:j:j]), flags: r.flags & flagRO}.enc()
+		},
+		"(reflect.Value).IsNil":  func(fr *frame, args []value) value { return isNilValue(rvArg(args[0])) },
+		"(reflect.Value).IsZero": func(fr *frame, args []value) value {
+			r := rvArg(args[0])
+			mustValid(r, "IsZero")
+			return isZeroV(r.t, r.get())
+		},
+		"(reflect.Value).Set": func(fr *frame, args []value) value {
+			setValue(rvArg(args[0]), rvArg(args[1]), "Set")
+			return nil
+		},
+		"(reflect.Value).SetZero": func(fr *frame, args []value) value {
+			d := rvArg(args[0])
+			setValue(d, rv{t: d.t, p: zero(d.t)}, "SetZero")
+			return nil
+		},
+		"(reflect.Value).Interface": func(fr *frame, args []value) value {
+			r := rvArg(args[0])
+			mustValid(r, "Interface")
+			if r.flags&flagRO != 0 {
+				panic(targetPanic{iface{t: nil, v: "reflect.Value.Interface: cannot return value obtained from unexported field or method"}})
+			}
+			v := r.copyOut()
+			if _, ok := r.t.Underlying().(*types.Interface); ok {
+				return v
+			}
+			return iface{t: r.t, v: v}
+		},
+		"(reflect.Value).Pointer":       func(fr *frame, args []value) value { return valuePointer(rvArg(args[0]), "Pointer") },
+		"(reflect.Value).UnsafePointer": func(fr *frame, args []value) value { return unsafePtr{valuePointer(rvArg(args[0]), "UnsafePointer")} },
+		"(reflect.Value).UnsafeAddr": func(fr *frame, args []value) value {
+			r := rvArg(args[0])
+			if r.flags&flagAddr == 0 {
+				reflectPanic("reflect.Value.UnsafeAddr of unaddressable value")
+			}
+			return ptrID(r.p.(*value))
+		},
+		"(reflect.Value).Convert": func(fr *frame, args []value) value {
+			r := rvArg(args[0])
+			mustValid(r, "Convert")
+			return convertValue(r, typeArg(args[1])).enc()
+		},
+		"(reflect.Value).CanConvert": func(fr *frame, args []value) value {
+			r := rvArg(args[0])
+			mustValid(r, "CanConvert")
+			return convertibleTo(r.t, typeArg(args[1]))
+		},
+		"(reflect.Value).Int": func(fr *frame, args []value) value {
+			r := rvArg(args[0])
+			mustKind(r, "Int", reflect.Int, reflect.Int8, reflect.Int16, reflect.Int32, reflect.Int64)
+			return conv(types.Typ[types.Int64], r.t, r.get())
+		},
+		"(reflect.Value).Uint": func(fr *frame, args []value) value {
+			r := rvArg(args[0])
+			mustKind(r, "Uint", reflect.Uint, reflect.Uint8, reflect.Uint16, reflect.Uint32, reflect.Uint64, reflect.Uintptr)
+			return conv(types.Typ[types.Uint64], r.t, r.get())
+		},
+		"(reflect.Value).Float": func(fr *frame, args []value) value {
+			r := rvArg(args[0])
+			mustKind(r, "Float", reflect.Float32, reflect.Float64)
+			return conv(types.Typ[types.Float64], r.t, r.get())
+		},
+		"(reflect.Value).Complex": func(fr *frame, args []value) value {
+			r := rvArg(args[0])
+			mustKind(r, "Complex", reflect.Complex64, reflect.Complex128)
+			return conv(types.Typ[types.Complex128], r.t, r.get())
+		},
+		"(reflect.Value).Bool": func(fr *frame, args []value) value {
+			r := rvArg(args[0])
+			mustKind(r, "Bool", reflect.Bool)
+			return r.get()
+		},
+		"(reflect.Value).String": func(fr *frame, args []value) value {
+			r := rvArg(args[0])
+			if !r.valid() {
+				return "<invalid Value>"
+			}
+			if reflectKind(r.t) == reflect.String {
+				return r.get()
+			}
+			return "<" + typeString(r.t) + " Value>"
+		},
+		"(reflect.Value).Bytes": func(fr *frame, args []value) value {
+			r := rvArg(args[0])
+			mustKind(r, "Bytes", reflect.Slice)
+			return r.get()
+		},
+		"(reflect.Value).OverflowInt": func(fr *frame, args []value) value {
+			r := rvArg(args[0])
+			mustKind(r, "OverflowInt", reflect.Int, reflect.Int8, reflect.Int16, reflect.Int32, reflect.Int64)
+			return overflowInt(r.t, args[1])
+		},
+		"(reflect.Value).OverflowUint": func(fr *frame, args []value) value {
+			r := rvArg(args[0])
+			mustKind(r, "OverflowUint", reflect.Uint, reflect.Uint8, reflect.Uint16, reflect.Uint32, reflect.Uint64, reflect.Uintptr)
+			return overflowUint(r.t, args[1])
+		},
+		"(reflect.Value).OverflowFloat": func(fr *frame, args []value) value {
+			r := rvArg(args[0])
+			k := mustKind(r, "OverflowFloat", reflect.Float32, reflect.Float64)
+			x := args[1].(float64)
+			if k == reflect.Float32 {
+				return reflect.Zero(reflect.TypeOf(float32(0))).OverflowFloat(x)
+			}
+			return false
+		},
+		"(reflect.Value).OverflowComplex": func(fr *frame, args []value) value {
+			r := rvArg(args[0])
+			k := mustKind(r, "OverflowComplex", reflect.Complex64, reflect.Complex128)
+			x := args[1].(complex128)
+			if k == reflect.Complex64 {
+				return reflect.Zero(reflect.TypeOf(complex64(0))).OverflowComplex(x)
+			}
+			return false
+		},
+		"(reflect.Value).SetInt":    setScalar("SetInt", reflect.Int, reflect.Int8, reflect.Int16, reflect.Int32, reflect.Int64),
+		"(reflect.Value).SetUint":   setScalar("SetUint", reflect.Uint, reflect.Uint8, reflect.Uint16, reflect.Uint32, reflect.Uint64, reflect.Uintptr),
+		"(reflect.Value).SetFloat":  setScalar("SetFloat", reflect.Float32, reflect.Float64),
+		"(reflect.Value).SetBool":   setScalar("SetBool", reflect.Bool),
+		"(reflect.Value).SetString": setScalar("SetString", reflect.String),
+		"(reflect.Value).SetLen": func(fr *frame, args []value) value {
+			r := rvArg(args[0])
+			mustKind(r, "SetLen", reflect.Slice)
+			s, _ := r.get().([]value)
+			n := int(asInt64(args[1]))
+			if n < 0 || n > cap(s) {
+				reflectPanic("reflect: slice length out of range in SetLen")
+			}
+			setValue(r, rv{t: r.t, p: s[:n]}, "SetLen")
+			return nil
+		},
+		"(reflect.Value).Grow": func(fr *frame, args []value) value {
+			r := rvArg(args[0])
+			mustKind(r, "Grow", reflect.Slice)
+			n := int(asInt64(args[1]))
+			if n < 0 {
+				reflectPanic("reflect.Value.Grow: negative len")
+			}
+			s, _ := r.get().([]value)
+			if len(s)+n > cap(s) {
+				ns := make([]value, len(s), len(s)+n)
+				copy(ns, s)
+				et := r.t.Underlying().(*types.Slice).Elem()
+				full := ns[:cap(ns)]
+				for k := len(s); k < len(full); k++ {
+					full[k] = zero(et)
+				}
+				setValue(r, rv{t: r.t, p: ns}, "Grow")
+			}
+			return nil
+		},
+		"(reflect.Value).MapIndex": func(fr *frame, args []value) value {
+			r := rvArg(args[0])
+			mustKind(r, "MapIndex", reflect.Map)
+			mt := r.t.Underlying().(*types.Map)
+			k := rvArg(args[1])
+			m, _ := r.get().(*smap)
+			kv := assignConv(k, mt.Key(), "reflect.Value.MapIndex")
+			v, ok := m.lookup(kv)
+			if !ok {
+				return rv{}.enc()
+			}
+			return rv{t: mt.Elem(), p: copyVal(mt.Elem(), v), flags: (r.flags | k.flags) & flagRO}.enc()
+		},
+		"(reflect.Value).SetMapIndex": func(fr *frame, args []value) value {
+			r := rvArg(args[0])
+			mustKind(r, "SetMapIndex", reflect.Map)
+			if r.flags&flagRO != 0 {
+				reflectPanic("reflect.Value.SetMapIndex using value obtained using unexported field")
+			}
+			mt := r.t.Underlying().(*types.Map)
+			k := rvArg(args[1])
+			e := rvArg(args[2])
+			m, _ := r.get().(*smap)
+			kv := assignConv(k, mt.Key(), "reflect.Value.SetMapIndex")
+			if !e.valid() {
+				theInterp.logMap(m)
+				m.delete(kv)
+				return nil
+			}
+			if m == nil {
+				panic(runtimeError("assignment to entry in nil map"))
+			}
+			theInterp.logMap(m)
+			m.insert(kv, assignConv(e, mt.Elem(), "reflect.Value.SetMapIndex"))
+			return nil
+		},
+		"(reflect.Value).MapKeys": func(fr *frame, args []value) value {
+			r := rvArg(args[0])
+			mustKind(r, "MapKeys", reflect.Map)
+			mt := r.t.Underlying().(*types.Map)
+			m, _ := r.get().(*smap)
+			var out []value
+			if m != nil {
+				for _, k := range m.keys {
+					out = append(out, rv{t: mt.Key(), p: copyVal(mt.Key(), k), flags: r.flags & flagRO}.enc())
+				}
+			}
+			return out
+		},
+		"(reflect.Value).MapRange": func(fr *frame, args []value) value {
+			r := rvArg(args[0])
+			mustKind(r, "MapRange", reflect.Map)
+			mt := r.t.Underlying().(*types.Map)
+			m, _ := r.get().(*smap)
+			st := &mapIterState{m: m, kt: mt.Key(), vt: mt.Elem(), ro: r.flags & flagRO}
+			if m != nil {
+				st.it = &smapIter{m: m, keys: append([]value(nil), m.keys...)}
+			}
+			return st
+		},
+		"(*reflect.MapIter).Next": func(fr *frame, args []value) value {
+			st := args[0].(*mapIterState)
+			if st.it == nil {
+				st.ok = false
+				return false
+			}
+			t := st.it.next()
+			st.ok = t[0].(bool)
+			if st.ok {
+				st.k, st.v = t[1], t[2]
+			}
+			return st.ok
+		},
+		"(*reflect.MapIter).Key": func(fr *frame, args []value) value {
+			st := args[0].(*mapIterState)
+			if !st.ok {
+				reflectPanic("MapIter.Key called before Next")
+			}
+			return rv{t: st.kt, p: copyVal(st.kt, st.k), flags: st.ro}.enc()
+		},
+		"(*reflect.MapIter).Value": func(fr *frame, args []value) value {
+			st := args[0].(*mapIterState)
+			if !st.ok {
+				reflectPanic("MapIter.Value called before Next")
+			}
+			return rv{t: st.vt, p: copyVal(st.vt, st.v), flags: st.ro}.enc()
+		},
+		"(reflect.Value).NumMethod": func(fr *frame, args []value) value {
+			r := rvArg(args[0])
+			mustValid(r, "NumMethod")
+			return rtypeMethods["NumMethod"](fr, []value{rtype{r.t}})
+		},
+		"(reflect.Kind).String":     func(fr *frame, args []value) value { return reflect.Kind(asInt64(args[0])).String() },
+		"(reflect.StructTag).Get":   func(fr *frame, args []value) value { return reflect.StructTag(args[0].(string)).Get(args[1].(string)) },
+		"(reflect.StructTag).Lookup": func(fr *frame, args []value) value {
+			v, ok := reflect.StructTag(args[0].(string)).Lookup(args[1].(string))
+			return tuple{v, ok}
+		},
+		"(reflect.StructField).IsExported": func(fr *frame, args []value) value {
+			return args[0].(structure)[1].(string) == ""
+		},
+		"(*reflect.ValueError).Error": func(fr *frame, args []value) value { return "reflect: ValueError" },
+	}
+	for k, v := range ext {
+		externals[k] = v
+	}
+}
+
+func setScalar(meth string, kinds ...reflect.Kind) externalFn {
+	return func(fr *frame, args []value) value {
+		r := rvArg(args[0])
+		mustKind(r, meth, kinds...)
+		var srcT types.Type
+		switch meth {
+		case "SetInt":
+			srcT = types.Typ[types.Int64]
+		case "SetUint":
+			srcT = types.Typ[types.Uint64]
+		case "SetFloat":
+			srcT = types.Typ[types.Float64]
+		case "SetBool":
+			srcT = types.Typ[types.Bool]
+		case "SetString":
+			srcT = types.Typ[types.String]
+		}
+		var nv value = args[1]
+		if meth != "SetBool" && meth != "SetString" {
+			nv = conv(r.t, srcT, args[1])
+		}
+		setValue(r, rv{t: r.t, p: nv}, meth)
+		return nil
+	}
+}
+
+func fieldOf(r rv, i int) rv {
+	st := r.t.Underlying().(*types.Struct)
+	if i < 0 || i >= st.NumFields() {
+		reflectPanic("Field index out of range")
+	}
+	f := st.Field(i)
+	ro := r.flags & flagRO
+	if !f.Exported() {
+		ro = flagRO
+	}
+	if r.flags&flagAddr != 0 {
+		cell := r.p.(*value)
+		return rv{t: f.Type(), p: &(*cell).(structure)[i], flags: flagAddr | ro}
+	}
+	return rv{t: f.Type(), p: r.p.(structure)[i], flags: ro}
+}
+
+func fieldByIndex(r rv, index []value) (rv, string) {
+	if len(index) == 1 {
+		mustKind(r, "FieldByIndex", reflect.Struct)
+		return fieldOf(r, int(asInt64(index[0]))), ""
+	}
+	mustKind(r, "FieldByIndex", reflect.Struct)
+	for k, ix := range index {
+		if k > 0 {
+			if reflectKind(r.t) == reflect.Ptr && reflectKind(r.t.Underlying().(*types.Pointer).Elem()) == reflect.Struct {
+				p, _ := r.get().(*value)
+				if p == nil {
+					return rv{}, "reflect: indirection through nil pointer to embedded struct field " + typeString(r.t)
+				}
+				r = rv{t: r.t.Underlying().(*types.Pointer).Elem(), p: p, flags: flagAddr | (r.flags & flagRO)}
+			}
+		}
+		mustKind(r, "FieldByIndex", reflect.Struct)
+		r = fieldOf(r, int(asInt64(ix)))
+	}
+	return r, ""
+}
+
+// deepEqual: structural equality like reflect.DeepEqual (cycle tolerant). Forks on symbolic leaves.
+func deepEqual(t types.Type, a, b value, seen map[[2]interface{}]bool, depth int) bool {
+	if depth > 200 {
+		return true
+	}
+	switch tt := t.Underlying().(type) {
+	case *types.Basic:
+		return truth(equalsV(t, a, b))
+	case *types.Pointer:
+		pa, _ := a.(*value)
+		pb, _ := b.(*value)
+		if pa == nil || pb == nil {
+			return pa == pb
+		}
+		if pa == pb {
+			return true
+		}
+		key := [2]interface{}{pa, pb}
+		if seen[key] {
+			return true
+		}
+		seen[key] = true
+		return deepEqual(tt.Elem(), *pa, *pb, seen, depth+1)
+	case *types.Struct:
+		sa, sb := a.(structure), b.(structure)
+		for i := 0; i < tt.NumFields(); i++ {
+			if !deepEqual(tt.Field(i).Type(), sa[i], sb[i], seen, depth+1) {
+				return false
+			}
+		}
+		return true
+	case *types.Array:
+		aa, ab := a.(array), b.(array)
+		for i := range aa {
+			if !deepEqual(tt.Elem(), aa[i], ab[i], seen, depth+1) {
+				return false
+			}
+		}
+		return true
+	case *types.Slice:
+		sa, _ := a.([]value)
+		sb, _ := b.([]value)
+		if (sa == nil) != (sb == nil) || len(sa) != len(sb) {
+			return false
+		}
+		if len(sa) > 0 && &sa[0] == &sb[0] {
+			return true
+		}
+		for i := range sa {
+			if !deepEqual(tt.Elem(), sa[i], sb[i], seen, depth+1) {
+				return false
+			}
+		}
+		return true
+	case *types.Map:
+		ma, _ := a.(*smap)
+		mb, _ := b.(*smap)
+		if (ma == nil) != (mb == nil) || ma.len() != mb.len() {
+			return false
+		}
+		if ma == mb {
+			return true
+		}
+		key := [2]interface{}{ma, mb}
+		if seen[key] {
+			return true
+		}
+		seen[key] = true
+		for i, k := range ma.keys {
+			vb, ok := mb.lookup(k)
+			if !ok || !deepEqual(tt.Elem(), ma.vals[i], vb, seen, depth+1) {
+				return false
+			}
+		}
+		return true
+	case *types.Interface:
+		ia, ib := a.(iface), b.(iface)
+		if ia.t == nil || ib.t == nil {
+			return ia.t == nil && ib.t == nil
+		}
+		if !types.Identical(ia.t, ib.t) {
+			return false
+		}
+		return deepEqual(ia.t, ia.v, ib.v, seen, depth+1)
+	case *types.Signature:
+		fa, oka := a.(*ssa.Function)
+		fb, okb := b.(*ssa.Function)
+		return oka && okb && fa == nil && fb == nil
+	case *types.Chan:
+		return a == b
+	}
+	return false
+}
+
+var _ = strings.Contains
